@@ -654,6 +654,9 @@ class Engine:
             h = self.policy.get(("ghost_local", env.func_key(), st.targets[0].id))
             if h is not None:
                 v = h(self, v)
+            h = self.policy.get(("ghost_local", env.func_key(), "*"))       # role-based: the handler decides by the value
+            if h is not None:
+                v = h(self, v, st.targets[0].id)
         for t in st.targets:
             self.assign(t, v, env)
 
@@ -796,6 +799,7 @@ class Engine:
         loop's variables under the invariant, check that one iteration re-establishes it (that path
         then ends), continue after the loop with invariant and negated condition."""
         tag = spec.name
+        self.loop_node = st             # contracts may read the loop's own text to find the variables by role
         for cname, clause in spec.invariant(self, env):
             self.require(f"{tag}.{cname}.base", clause, kind="inv")
         spec.havoc(self, env)
